@@ -61,7 +61,9 @@ class Programs:
         labs = a['labels'][i] if nd else []
         fresh = 'n%d' % rng.randrange(1000)
         if f == 'fork':
-            how = rng.choice(['slice', 'slice1', 'labelslice', 'diff', 'cumsum', 'mul', 'take_list', 'reindex_same', 'dropna', 'sort_axis', 'copy'])
+            how = rng.choice(['slice', 'slice1', 'labelslice', 'diff', 'cumsum', 'mul', 'take_list', 'reindex_same', 'dropna', 'sort_axis', 'copy',
+                              # results whose axes are BUILT FROM the array's labels by another object (repeat / interpolation / reindexing onto it)
+                              'broadcast_scalar', 'broadcast_reduced', 'interp_like', 'reindex_like', 'broadcast_scalar', 'interp_like'])
             stats['fork_how'][how] += 1
             j = rng.randrange(nd); l0 = a['labels'][j][0]
             return ['fork_edit', how, j, (l0 + 1000) if isinstance(l0, (int, float)) and not isinstance(l0, bool) else 'zz']
@@ -266,6 +268,12 @@ class _:
         elif how == 'dropna': r = a.dropna(axis=0)
         elif how == 'sort_axis': r = a.sort_axis(axis=0)
         elif how == 'copy': r = a.copy()
+        elif how == 'broadcast_scalar': r = da().DimArray(7.).broadcast(a)
+        elif how == 'broadcast_reduced': r = a.sum(axis=0).broadcast(a) if a.ndim > 1 else da().DimArray(7.).broadcast(a)
+        elif how == 'interp_like':
+            num = [ax.values.dtype.kind in 'if' and ax.size > 0 for ax in a.axes]
+            r = (a * 1).interp_like(a) if all(num) else a.ix[0:]
+        elif how == 'reindex_like': r = (a * 1).reindex_like(a)
         else: raise ValueError(how)
         for ax in r.axes: ax.is_monotonic()
         if r.ndim and r.axes[j % r.ndim].size and not any(r.axes[j % r.ndim] is ax for ax in a.axes):
